@@ -224,7 +224,10 @@ def gen_config(rng):
     cfg["envk"] = envk
     # pytest started in another directory with the project as path argument (shortcut options are looked up in the
     # invocation directory, so configurations that use one stay in the project root)
-    cfg["invocation"] = "other-directory" if not cfg["shortcut"] and rng.random() < 0.2 else "root"
+    cfg["invocation"] = "root"
+    if not cfg["shortcut"]:
+        r = rng.random()
+        cfg["invocation"] = "other-directory" if r < 0.15 else "monorepo" if r < 0.35 else "root"
     if envk == "ci":
         cfg["ci"] = rng.choice(CI_VARS)
     elif envk == "ci_pycharm":
@@ -276,9 +279,28 @@ def check_session(cfg, variant, out, C):
     files, one, two = build_files(variant, pp)
     cfg = dict(cfg, pending=[c for c in CATS if c != "trim"] if variant == 2 else ["create", "fix", "trim"] if variant == 3 else CATS)
     exp = approval_model(cfg)
+    mono = cfg.get("invocation") == "monorepo"
+    if mono:
+        # the project lives in pkg/ (with its own pyproject.toml) inside a repository whose root has another
+        # pyproject.toml with other default flags; pytest is started in the repository root as `pytest pkg`:
+        # the project's configuration counts, not the one of the directory pytest was started in
+        foreign = ["report"] if exp.get("mode") == "active" and exp.get("A") else ["create", "fix", "trim", "update"]
+        files = {"pkg/" + k: v for k, v in files.items()}
+        files.setdefault("pkg/pyproject.toml", "[tool.inline-snapshot]\n")
+        files["pyproject.toml"] = "[tool.inline-snapshot]\ndefault-flags=[" + ", ".join(f'"{f}"' for f in foreign) + "]\n"
+        C["sessions_monorepo_layout"] = C.get("sessions_monorepo_layout", 0) + 1
     proj = session.Project(files, with_vp=False)
     try:
-        if cfg.get("invocation") == "other-directory":
+        if mono:
+            args = args + ["pkg"]
+            r = session.run_session(proj, args, env=env, stdin=stdin, timeout=180)
+            strip = lambda d: {k[4:]: v for k, v in d.items() if k.startswith("pkg/")}  # noqa
+            r.before, r.after = strip(r.before), strip(r.after)
+            for a in r.audit:
+                for key in ("path", "dst", "src"):
+                    if isinstance(a.get(key), str) and a[key].startswith("pkg/"):
+                        a[key] = a[key][4:]
+        elif cfg.get("invocation") == "other-directory":
             args = args + ["../.."]
             C["sessions_started_in_other_directory"] = C.get("sessions_started_in_other_directory", 0) + 1
             r = session.run_session(proj, args, env=env, stdin=stdin, timeout=180, cwd_sub="started/elsewhere")
@@ -298,7 +320,7 @@ def check_session(cfg, variant, out, C):
         return
     protected = [k for k in r.before if k.endswith(".py") or (k.startswith(".inline-snapshot/external/") and "-new" not in k and not k.endswith(".gitignore"))]
     sig_mode = exp["mode"] if exp["mode"] != "active" else ("active:" + ("+".join(sorted(exp["A"])) or "nothing"))
-    out["signatures"].add(f"{sig_mode}/{cfg['source']}/{cfg['envk']}/{'tty' if cfg['tty'] else 'notty'}" + ("/other-directory" if cfg.get("invocation") == "other-directory" else ""))
+    out["signatures"].add(f"{sig_mode}/{cfg['source']}/{cfg['envk']}/{'tty' if cfg['tty'] else 'notty'}" + ("/" + cfg["invocation"] if cfg.get("invocation", "root") != "root" else ""))
     C["modes"][exp["mode"]] = C["modes"].get(exp["mode"], 0) + 1
     out["evaluations"] += 1
 
@@ -419,6 +441,12 @@ FIXED_CONFIGS = [
     dict(cli=["report"], source="cli", envk="plain", invocation="other-directory"),
     dict(cli=["review"], source="cli", envk="plain", tty=True, answers=[True, True, False, False], invocation="other-directory"),
     dict(cli=None, py_default=["create", "fix"], has_pyproject=True, source="pyproject", envk="plain", invocation="other-directory"),
+    # project inside a repository with a foreign pyproject.toml in the start directory
+    dict(cli=None, py_default=["report"], has_pyproject=True, source="pyproject", envk="plain", invocation="monorepo"),
+    dict(cli=None, py_default=["fix"], has_pyproject=True, source="pyproject", envk="plain", invocation="monorepo"),
+    dict(cli=None, source="none", envk="plain", invocation="monorepo"),
+    dict(cli=None, py_default=["create", "fix", "trim", "update"], has_pyproject=True, source="pyproject", envk="plain", invocation="monorepo"),
+    dict(cli=["trim"], source="cli", envk="plain", invocation="monorepo"),
 ]
 
 
